@@ -1,5 +1,5 @@
 """C08 - unknown fields survive decode/encode (U1-U4)."""
-from . import decode
+from . import codec, decode
 
 PROP = "C08"
 TECHNIQUE = "def-use of consumed bytes into ParsedField.raw by E2 with fresh call identities; who-writes/who-emits checks; CFG must-pass for byte accounting"
@@ -16,5 +16,7 @@ def run(ctx) -> None:
     for name, fn in (("U1", decode.rule_U1), ("U2", decode.rule_U2), ("U3", decode.rule_U3), ("U5", decode.rule_U5)):
         ctx.rules_run.append(name)
         fn(ctx)
+    ctx.rules_run.append("T1[message]")
+    codec.rule_T1(ctx, "T1", only=("message",))   # unknown fields of a nested message travel inside bytes(sub): it must be encoded unconditionally
     ctx.rules_run.append("U4")
     decode.rule_S2(ctx, "U4")
